@@ -76,6 +76,29 @@ def use_built_copy(ctx, zipped=False):
         shutil.rmtree(os.path.join(out, "pyscsi"))
         out = arch
         ctx.count("zipped_copies")
+    # what the built distribution *requires*: the two bindings are optional (extras), never unconditional requirements
+    eggbase = os.path.join(devnode.base(), "egg")
+    os.makedirs(eggbase, exist_ok=True)
+    p2 = subprocess.run([sys.executable, "setup.py", "-q", "egg_info", "--egg-base", eggbase], cwd=src, env=env, stdout=subprocess.PIPE, stderr=subprocess.STDOUT, timeout=300)
+    req = [os.path.join(r, "requires.txt") for r, _d, fs in os.walk(eggbase) if "requires.txt" in fs]
+    if p2.returncode == 0:
+        ctx.count("distribution_metadata_read")
+        unconditional = []
+        if req:
+            for line in open(req[0]):
+                line = line.strip()
+                if line.startswith("["):
+                    if not line.startswith("[:"):
+                        break  # extras follow ('[:marker]' sections are still unconditional requirements under a marker)
+                    continue
+                if line:
+                    unconditional.append(line)
+        bad = [r for r in unconditional if any(b in r.lower().replace("_", "-") for b in ("sgio", "iscsi"))]
+        ctx.case(("metadata", "requires"), True)
+        if bad:
+            ctx.fail("C19:%s.binding_is_a_hard_requirement" % "built", "the built distribution requires %r unconditionally: the library cannot be installed without that binding" % bad, {"requires": unconditional})
+    if zipped is None:
+        pass
     sys.path[:] = [out] + [x for x in sys.path if os.path.realpath(x) != repo.REPO]
     # the development install of /repo (an editable finder at the end of sys.meta_path) would answer for whatever the built copy lacks
     sys.meta_path[:] = [f for f in sys.meta_path if "__editable__" not in str(getattr(f, "__module__", "")) and "Editable" not in type(f).__name__]
@@ -123,8 +146,7 @@ def run(shard, ctx):
     if shard.get("hostname") is not None:
         # the machine's host name is part of the environment (it ends up in the default initiator name): any name the system
         # allows -- a 64-character label, empty labels, characters outside ASCII, underscores
-        name = shard["hostname"]
-        socket.gethostname = lambda: name
+        socket.gethostname = lambda _h=shard["hostname"]: _h
         ctx.count("configurations_with_unusual_host_names")
     if shard.get("built") and not use_built_copy(ctx, zipped=shard.get("built") == "zip"):
         return
@@ -179,6 +201,30 @@ def run(shard, ctx):
         except Exception as e:  # noqa: BLE001
             ctx.fail("C19:%s.import_fails.%s" % (cfg, mi.name.split(".")[-1]), "import %s raised %s: %s" % (mi.name, type(e).__name__, e), {"configuration": cfg, "module": mi.name}, exc=e)
     ctx.count("modules_imported", len(mods))
+    # the same modules the way programs (and the library itself) spell it -- `import a.b.c as m`, `from a.b import c`, attribute
+    # access from the top package, importlib.reload -- reach the very module objects
+    import functools
+
+    for name in mods:
+        ns = {}
+        parent, _dot, leaf = name.rpartition(".")
+        for how, stmt in (("import ... as", "import %s as m" % name), ("from ... import", "from %s import %s as m" % (parent, leaf))):
+            try:
+                exec(stmt, ns)
+                ok = ns["m"] is sys.modules[name]
+                err = None
+            except Exception as e:  # noqa: BLE001
+                ok, err = False, e
+            ctx.count("import_spellings_tried")
+            if not ok:
+                ctx.fail("C19:%s.import_spelling_fails" % cfg, "`%s` %s" % (stmt, "raised %s: %s" % (type(err).__name__, err) if err else "gives another object than sys.modules[%r]" % name),
+                         {"configuration": cfg, "module": name, "statement": stmt}, exc=err)
+                break
+        try:
+            if functools.reduce(getattr, name.split(".")[1:], sys.modules["pyscsi"]) is not sys.modules[name]:
+                raise AttributeError("another object")
+        except AttributeError as e:
+            ctx.fail("C19:%s.import_spelling_fails" % cfg, "attribute access %s from the top package: %s" % (name, e), {"configuration": cfg, "module": name, "statement": "attribute access"}, exc=e)
     try:
         import pyscsi.pyiscsi.iscsi_device as idm
         import pyscsi.pyscsi.scsi_device as sdm
@@ -300,6 +346,42 @@ def run(shard, ctx):
     class ClosesCount(Plain):
         def close(self):
             return 1
+
+    # a device that fails the attach probe (busy, a pending unit attention) is still the caller's: the facade does not close it
+    class FailsOnce(Plain):
+        closes = 0
+
+        def execute(self, cmd, en_raw_sense=False):
+            self.n += 1
+            if self.n == 1:
+                raise OSError(16, "device busy")
+
+        def close(self):
+            self.closes += 1
+
+    for reattach in (False, True):
+        fo = FailsOnce()
+        ctx.case((cfg, "facade-plain", "attach fails", reattach), True)
+        try:
+            if reattach:
+                s = SCSI(Plain(), 512)
+                s(fo)
+            else:
+                SCSI(fo, 512)
+            ctx.fail("C19:%s.facade_plain_device" % cfg, "the attach probe raised in the device, SCSI(dev) returned normally", {"configuration": cfg, "device_object": "FailsOnce"})
+        except OSError:
+            pass
+        except Exception as e:  # noqa: BLE001
+            ctx.fail("C19:%s.facade_plain_device" % cfg, "the attach probe raised OSError in the device, the caller got %s" % type(e).__name__, {"configuration": cfg, "device_object": "FailsOnce"}, exc=e)
+        if fo.closes:
+            ctx.fail("C19:%s.facade_closed_the_callers_device" % cfg, "after an attach whose probe failed the facade had called close() on the caller's device object (%d times)" % fo.closes,
+                     {"configuration": cfg, "device_object": "FailsOnce", "attached_by": "s(dev)" if reattach else "SCSI(dev)"})
+        else:
+            try:
+                s2 = SCSI(fo, 512)  # the retry works on the same object
+                s2.testunitready()
+            except Exception as e:  # noqa: BLE001
+                ctx.fail("C19:%s.facade_plain_device" % cfg, "the retry of the attach over the same device object raised %s" % e, {"configuration": cfg, "device_object": "FailsOnce"}, exc=e)
 
     for kind in (Plain, LogList, Unconnected, Sized, EqualsAnything, Slotted, KeywordOnly, Forwarding, ExtraOptions, ClosesTrue, ClosesSelf, ClosesCount):
         for reattach in (False, True):
